@@ -14,7 +14,7 @@
    [None] (impl no longer in the recognised form) makes a clause trivially true; a recognised but different impl breaks
    the proof. Not modelled, hence not tied: non-empty user_data / reorgs (Vec<String>; the model has the empty vector only),
    the imperative Manifest / PartialKeypair impls (interpreted by the model's own functions). *)
-From HC Require Import Base Codec CodecFacts Crypto Storage Bitfield Oplog OplogFacts CodecDesc SrcCodec CodecTie.
+From HC Require Import Base Codec CodecFacts Crypto Storage Bitfield Oplog OplogFacts CodecDesc SrcCodec CodecTieLib.
 From Coq Require Import Lia.
 #[local] Open Scope string_scope.
 #[local] Arguments enc_uint : simpl never.
